@@ -4,7 +4,9 @@
   (`decide +kernel`), give the ciphertexts / round keys of the specification on concrete inputs.
   The interpreter is an UNVALIDATED transcription of the Arm ARM (no arm64 CPU or emulator in the sandbox): these
   tests compare listing + transcription with the independent specification, not with a CPU.
-  The general theorem for `cryptoBlockAsm` is `kernelX1_eq_spec` (SMGo/Proofs/ISAValArm64Spec.lean).
+  General theorems exist for `cryptoBlockAsm` (`kernelX1_eq_spec`), `expandKeyAsm` (`expandKey_eq_spec`),
+  `cryptoBlockAsmX2 / X4 / X8` (`kernelX2_eq_spec`, `kernelX4_eq_spec`, `kernelX8_eq_spec`); for
+  `cryptoBlockAsmX16Internal` the test below is all there is.
 -/
 import SMGo.Model.ISAValArm64Inst
 import SMGo.Proofs.ISAValTests
